@@ -931,8 +931,10 @@ class ChainedVisitor(ASTVisitor):
 
     - All visitors are run in the order they are defined, with enter being
       called in order and leave in reverse order.
-    - raising :class:`SkipNode` in one of them will prevent any later visitor
-      to run.
+    - raising :class:`SkipNode` in one of them prevents the node's children from
+      being visited by any of them; the other visitors still enter the node (in
+      order) and leave it (in reverse order), only the raiser's ``leave`` is not
+      called.
 
     Args:
         *visitors: List of visitors to run.
@@ -947,10 +949,23 @@ class ChainedVisitor(ASTVisitor):
 
     def enter(self, node: N) -> N:
         cur = node  # type: Optional[N]
+        entered = []  # type: list
+        skipped = False
         for v in self.visitors:
             if cur is None:
                 break
-            cur = v.enter(cur)
+            try:
+                cur = v.enter(cur)
+            except SkipNode:
+                skipped = True
+            else:
+                entered.append(v)
+
+        if skipped:
+            # The skip is the raiser's own: the other visitors stay balanced.
+            for v in entered[::-1]:
+                v.leave(node)
+            raise SkipNode()
 
         return node
 
